@@ -1,6 +1,7 @@
 (* API commands 500..599: rendering (C07, C08, C09).
      500 scene -> svg_doc      501 scene -> tikz_doc
      502 scene -> nodeHeight and, per label, w h x y dx dy origin (Renderer.layout, nodePos)
+     503 text -> its serialisation as SVG character data (Text/Xml.v) and what the reader gets back
    scene :=
      dir(0 up,1 down,2 left,3 right) iw ih ml mr mt mb gap padL padR padT padB dotr (rationals)
      showTicks showBorder tickCross (bools)
@@ -10,7 +11,7 @@
      labels: list of (ideal, datum width, opt text, chain, list of 5 function-colour codes)
    Sizes are computed from the datum width by the model of get_nodes. *)
 From Coq Require Import ZArith NArith QArith List Bool.
-From Labella Require Import Extract.Codec Text.Utils Render.Geometry Render.Scene.
+From Labella Require Import Extract.Codec Text.Utils Text.Xml Render.Geometry Render.Scene.
 Import ListNotations.
 Open Scope Z_scope.
 
@@ -150,5 +151,10 @@ Definition api_render (cmd : Z) (a : list Z) : list Z :=
   | 500 => with_scene (fun s => 1 :: e_svg (svg_doc_of s)) a
   | 501 => with_scene (fun s => 1 :: e_tikz (tikz_doc_of s)) a
   | 502 => with_scene (fun s => 1 :: e_q (sc_H s) ++ e_list (e_layout s) (sc_labels s)) a
+  | 503 => match d_text a with
+           | Some (t, _) => 1 :: e_list e_n (xml_escape t)
+                              ++ match xml_read (xml_escape t) with Some u => 1 :: e_list e_n u | None => [0] end
+           | None => bad_input
+           end
   | _ => bad_input
   end.
